@@ -43,8 +43,8 @@ def reg(p):
 
 
 reg(Prop('C01', lambda r, i, t: pc.gen_item(r, i, t, 'C01'), pc.eval_C01, 1600, 12000, RULE_COMPUTE, ASSUME_COMPUTE,
-         ['C01_run_partition', 'C01_step_adds_exactly']))
-reg(Prop('C02', lambda r, i, t: pc.gen_item(r, i, t, 'C02'), pc.eval_C02, 1600, 12000, RULE_COMPUTE, ASSUME_COMPUTE,
+         ['C01_run_partition', 'C01_step_adds_exactly', 'C01_assigned_iff', 'C01_dropped_whole', 'C01_assigned_once', 'C01_default_min_lt', 'C01_default_min_old_iff', 'C01_default_min_old_witness']))
+reg(Prop('C02', lambda r, i, t: pc.gen_item_C02(r, i, t, 'C02'), pc.eval_C02, 1600, 12000, RULE_COMPUTE, ASSUME_COMPUTE,
          ['C02_arity', 'C02_iteration_is_prefix_order', 'C02_parent_before_child', 'C02_temp_ids_unique', 'C02_final_ids']))
 reg(Prop('C03', lambda r, i, t: pc.gen_item(r, i, t, 'C03'), pc.eval_C03, 1600, 12000, RULE_COMPUTE, ASSUME_COMPUTE,
          ['C03_all_connected', 'C03_roots_closed', 'C03_contour', 'C03_branch_own_le_sub']))
@@ -53,7 +53,7 @@ reg(Prop('C04', lambda r, i, t: pc.gen_item(r, i, t, 'C04'), pc.eval_C04, 2000, 
 reg(Prop('C05', lambda r, i, t: pc.gen_item(r, i, t, 'C05'), pc.eval_C05, 1600, 12000, RULE_COMPUTE, ASSUME_COMPUTE,
          ['C05_parented_leaf_significant', 'C05_meeting_pixel', 'C05_builtin', 'C05_orphan_leaf']))
 reg(Prop('C06', lambda r, i, t: pc.gen_item_C06(r, i, t, 'C06'), pc.eval_C06, 1200, 8000, RULE_COMPUTE, ASSUME_COMPUTE,
-         []))
+         ['C06_label_iff', 'C06_unlabelled_iff', 'C06_indices_own', 'C06_indices_subtree', 'C06_npix_subtree', 'C06_vmax_add', 'C06_vmin_add', 'C06_vmax_merge', 'C06_vmin_merge', 'C06_vmax_is_max', 'C06_vmin_is_min', 'C06_peak_own', 'C06_peak_subtree']))
 
 HOOK_COMMITS = ['15057e9']
 LEVEL_TEXT = {}
@@ -66,7 +66,9 @@ RULE_HISTORY = ("histories = a seeded structured array (as for C01) computed, th
                 "comparison boundaries / inherited (0) / user criteria, each preceded by a random set of cache-warming "
                 "queries, the last prune repeated; non-trivial = at least one structure was removed; distinct = distinct "
                 "(array, parameters, operation list)")
-reg(Prop('C07', ph.gen_item_C07, ph.eval_C07, 1200, 8000, RULE_HISTORY, ASSUME_COMPUTE, []))
+reg(Prop('C07', ph.gen_item_C07, ph.eval_C07, 1200, 8000, RULE_HISTORY, ASSUME_COMPUTE,
+         ['C07_every_leaf_passes', 'C07_regions_preserved', 'C07_pixels_preserved', 'C07_trunk_step', 'C07_arity_preserved',
+          'C07_ids_preserved', 'C07_idempotent', 'C07_noop', 'C07_params_monotone', 'C07_params_zero_inherits']))
 reg(Prop('C08', ph.gen_item_C08, ph.eval_C08, 1200, 8000,
          "pairs (compute loosely then prune strictly) vs (compute strictly) on the same seeded array; modes: min_npix only, "
          "min_delta only, both; non-trivial = the prune removed a structure", ASSUME_COMPUTE, []))
@@ -75,3 +77,44 @@ reg(Prop('C14', ph.gen_item_C14, ph.eval_C14, 800, 6000,
          "construction) on a seeded computed dendrogram; after every step all observables are compared with the model "
          "(a function of the current forest) and with a dendrogram rebuilt from links, label map and data; non-trivial = a "
          "prune removed a structure", ASSUME_COMPUTE, []))
+
+import props_analysis as pa  # noqa: E402
+
+ASSUME_ANALYSIS = [
+    "floating point: the implementation's float64 results are compared with exact rationals to relative 1e-9 (2e-5 against the exact pi/(4 ln 2) where the code uses the literal 1.1331)",
+    "LAPACK eigh: real orthonormal eigenvectors of a real symmetric matrix (checked numerically on every run: residual, orthonormality, order)",
+    "Astropy units implement dimensional analysis and the physical constants (compared numerically with the model's exact SI factors)",
+]
+reg(Prop('C10', pa.gen_item_C10, pa.eval_C10, 1500, 12000,
+         "seeded pixel sets in 1-4 dimensions (random / collinear / equal-weight / single pixel; positive dyadic weights; NaNs), a random "
+         "direction, a translation vector, a random call order interleaved with calls on other live statistic objects; implementation floats vs "
+         "the Lean model's exact rationals; non-trivial = at least two pixels", ASSUME_ANALYSIS, ['C10_mom0_sum', 'C10_mom1_weighted_mean', 'C10_mom2_covariance', 'C10_mom2_symm', 'C10_mom2_psd', 'C10_along_scale_invariant', 'C10_along_basis', 'C10_translate_mom0', 'C10_translate_mom1', 'C10_translate_mom2', 'C10_order_desc']))
+reg(Prop('C13', pa.gen_item_C13, pa.eval_C13, 1500, 12000,
+         "seeded value arrays x five input families x equivalent unit spellings x metadata values/units x output units; every third case is an "
+         "error-table case (each way of omitting / mis-typing a required item, unsupported input, non-flux output); implementation vs Lean "
+         "model (exact rationals) and vs the textbook formula computed independently", ASSUME_ANALYSIS, []))
+
+import props_invariance as pi  # noqa: E402
+
+reg(Prop('C15', pi.gen_item_C15, pi.eval_C15, 500, 4000,
+         "each seeded case (incl. int8- and uint8-range data with large min_delta) is computed as given and again as: repeat, verbose, "
+         "Fortran / strided / read-only layout, every integer and float dtype that holds the values exactly, and after a random prelude of "
+         "compute / prune / plot / Newick / save on other dendrograms; all variants must give identical structures, ids, label map and "
+         "Newick text, equal to the model; inputs must be unchanged", ASSUME_COMPUTE, ['C15_signif_width_free', 'C15_signif_old_eq_of_inRange', 'C15_signif_old_witness', 'C15_deterministic']))
+reg(Prop('C16', pi.gen_item_C16, pi.eval_C16, 600, 5000,
+         "each seeded case is transformed by a random axis permutation, a flip, an inserted unit axis, a NaN / below-threshold border, an affine "
+         "map a*v+b (a a power of two) with mapped min_value / min_delta, a strictly increasing map (no pruning) and a raised threshold; "
+         "hierarchy compared on mapped pixels for distinct values, trunk regions / assigned pixels / leaf count for ties; every run is also "
+         "compared with the model", ASSUME_COMPUTE, ['C16_run_equivariant', 'C16_similarity_regions', 'C16_similarity_parent', 'C16_similarity_counts', 'C16_similarity_trunk', 'C16_affine_builtin', 'C16_rename_builtin']))
+reg(Prop('C17', pi.gen_item_C17, pi.eval_C17, 800, 6000,
+         "arrays in 1-4 dimensions with axes of length 1-6, a random non-empty subset of periodic axes (passed as int or list), cyclic shifts "
+         "by 1, n-1, n and a random amount along a periodic axis; contour predicate with an independent adjacency (wrap on declared axes "
+         "only), model correspondence", ASSUME_COMPUTE, ['C17_axis', 'C17_neighbours', 'C17_grid_symmetric', 'C17_shift_automorphism']))
+reg(Prop('C20', pi.gen_item_C20, pi.eval_C20, 1000, 8000,
+         "pairs of dendrograms: same call twice, different min_delta/min_npix, different user criteria, one pixel changed, NaN mask changed, "
+         "saved-and-loaded copy, pruned copy, reshaped data, different min_value, non-dendrogram objects; both argument orders",
+         ASSUME_COMPUTE, []))
+
+for _p in ('C10', 'C11', 'C12', 'C13'):
+    if _p in PROPS:
+        PROPS[_p].lib = 'ADPropsM'
